@@ -2,7 +2,7 @@
    output satisfies its defining equation over the final value map. *)
 From Coq Require Import QArith Field Ring List String Bool Arith Lia.
 Import ListNotations.
-From S2 Require Import Base.Num Base.Arr Model.Expr Model.Struct Model.Derived Model.Program Gen.MiscGen
+From S2 Require Import Base.Num Base.Arr Model.Expr Model.Struct Model.Derived Model.Program Gen.DerivedGen
      Proofs.ArrLemmas Proofs.NumLemmas Proofs.BuildProofs.
 Local Open Scope nat_scope.
 Local Notation length := List.length.
